@@ -6,14 +6,19 @@ reciprocal metric, centring rules from International Tables; ring partition
 checker.
 """
 import itertools
+import os
 import numpy as np
 from ..common import rng
 
 TECHNIQUE = 'runtime reference-model monitor: brute-force lattice enumeration over a provably sufficient box + ring partition checker'
-LEVEL_TEXT = 'Exploration: for generated cells (all seven lattice systems, all seven centrings, random limits/tolerances) the real gethkls/makerings outputs are compared with an exhaustive enumeration of the bounding box and the ring partition rules; includes call histories on the same object.'
+LEVEL_TEXT = ('Exploration: for generated cells (all seven lattice systems, all seven centrings, random limits/tolerances; objects built by '
+              'the constructor, unitcell.from_pars / unitcell_from_parameters and cellfromstring) the real gethkls/makerings outputs and the '
+              'ring table left by indexer.assigntorings are compared with an exhaustive enumeration of the bounding box, ascending order and '
+              'the ring partition rules; includes call histories on the same object with repeated limits (the cached-list path) and '
+              'gethkls(L) followed by makerings(L - tol, tol).')
 LEVEL_NOTE = 'Trusts the harness reciprocal metric (longdouble) and the centring rules written from International Tables; reflections within 1e-9 of the limit accepted either way.'
 
-RULE = ("a case = (cell, centring, d* limit, ring tol); cells: random triclinic a,b,c in [2,30], "
+RULE = ("a case = (cell, centring, d* limit, ring tol, construction route); cells: random triclinic a,b,c in [2,30], "
         "angles in [55,125] with positive volume, plus the seven lattice systems; all seven "
         "centrings; limits chosen to give ~10..5000 reflections; non-trivial = >= 10 allowed "
         "reflections and at least one absent one (or P); distinct = (lattice system, centring, "
@@ -99,6 +104,15 @@ def gen_cell(r, kind):
             return cell
 
 
+def random_rot(r):
+    q = r.normal(size=4)
+    q /= np.sqrt((q * q).sum())
+    w, x, y, z = q
+    return np.array([[1 - 2 * (y * y + z * z), 2 * (x * y - z * w), 2 * (x * z + y * w)],
+                     [2 * (x * y + z * w), 1 - 2 * (x * x + z * z), 2 * (y * z - x * w)],
+                     [2 * (x * z - y * w), 2 * (y * z + x * w), 1 - 2 * (x * x + y * y)]])
+
+
 KINDS = ["triclinic", "monoclinic", "orthorhombic", "tetragonal", "hexagonal", "rhombohedral", "cubic"]
 
 
@@ -122,6 +136,11 @@ def check_list(run, uc, cell, sym, dsmax, peaks, desc, route):
                                  dict(desc, hkl=hkl))
         got[hkl] = d
     run.count("reflections_checked", len(got))
+    dlist = [p[0] for p in peaks]
+    if any(dlist[i] > dlist[i + 1] for i in range(len(dlist) - 1)):
+        i = [i for i in range(len(dlist) - 1) if dlist[i] > dlist[i + 1]][0]
+        vio |= run.violation("%s:order" % route, "list not in ascending d*: entry %d has %.12g, entry %d has %.12g"
+                             % (i, dlist[i], i + 1, dlist[i + 1]), desc)
     Gi = rmetric(cell)
     for hkl, d in got.items():
         hv = np.array(hkl, dtype=np.longdouble)
@@ -208,6 +227,26 @@ def check_rings(run, uc, limit, tol, desc):
         prev_first, prev_last = ds[0], ds[-1]
 
 
+def build_uc(unitcell, route, cell, sym):
+    """the user entry points that lead to the same reflection list for a named centring"""
+    if route == "from_pars":
+        from ImageD11 import parameters
+        d = {"cell__a": cell[0], "cell__b": cell[1], "cell__c": cell[2], "cell_alpha": cell[3], "cell_beta": cell[4],
+             "cell_gamma": cell[5], "cell_lattice_[P,A,B,C,I,F,R]": sym}
+        return unitcell.unitcell.from_pars(parameters.parameters(**d))
+    if route == "unitcell_from_parameters":
+        from ImageD11 import parameters
+        d = {"cell__a": cell[0], "cell__b": cell[1], "cell__c": cell[2], "cell_alpha": cell[3], "cell_beta": cell[4],
+             "cell_gamma": cell[5], "cell_lattice_[P,A,B,C,I,F,R]": sym}
+        return unitcell.unitcell_from_parameters(parameters.parameters(**d))
+    if route == "cellfromstring":
+        return unitcell.cellfromstring(" ".join(repr(float(x)) for x in cell) + " " + sym)
+    return unitcell.unitcell(cell, sym)
+
+
+ROUTES = ["ctor", "ctor", "from_pars", "unitcell_from_parameters", "cellfromstring"]
+
+
 def one_case(run, seed, idx, mods):
     unitcell, indexing = mods
     r = rng(seed, "C03", idx)
@@ -222,8 +261,12 @@ def one_case(run, seed, idx, mods):
     # keep the walk bound (|h|<200) out of play
     dsmax = min(dsmax, 150.0 / max(cell[:3]))
     tol = float(10 ** r.uniform(-4, np.log10(5e-2)))
-    desc = dict(index=idx, cell=cell, sym=sym, dsmax=dsmax, tol=tol, kind=kind)
-    uc = unitcell.unitcell(cell, sym)
+    # construction route drawn from a stream of its own (so the older dimensions of case idx are unchanged)
+    rr = rng(seed, "C03", idx, "route")
+    route = ROUTES[idx % len(ROUTES)] if idx < 2 * len(ROUTES) else ROUTES[int(rr.integers(len(ROUTES)))]
+    desc = dict(index=idx, cell=cell, sym=sym, dsmax=dsmax, tol=tol, kind=kind, built_by=route)
+    uc = build_uc(unitcell, route, cell, sym)
+    run.count("built_by:" + route)
     peaks = uc.gethkls(dsmax)
     nw, nabs, vio = check_list(run, uc, cell, sym, dsmax, peaks, desc, "gethkls")
     run.case((kind, sym, tuple(round(c, 3) for c in cell), round(dsmax, 5)),
@@ -258,9 +301,61 @@ def one_case(run, seed, idx, mods):
                 check_list(run, uh, cell, sym, lim_h + tol, uh.peaks, dict(desc, history=list(hist)), "makerings:history")
                 check_rings(run, uh, lim_h, tol, dict(desc, history=list(hist)))
             run.count("history_steps")
+    # repeated limits on ONE object: gethkls answers a repeated limit from its cached list (limit == self.limit), and
+    # makerings(L - tol, tol) after gethkls(L) re-uses it too when (L - tol) + tol == L in floating point
+    if rr.random() < 0.5:
+        uk = build_uc(unitcell, route, cell, sym)
+        lims = [dsmax * float(f) for f in rr.choice([1.0, 0.8, 0.6], 2, replace=False)]
+        seq = [lims[int(j)] for j in rr.integers(0, 2, 5)]
+        seq[1] = seq[0]                      # at least one immediate repeat
+        hist = []
+        last = None
+        for lim_h in seq:
+            hist.append("gethkls(%.6f)" % lim_h)
+            ph = uk.gethkls(lim_h)
+            if last is not None and last == lim_h:
+                run.count("cache_hit_calls")
+            last = lim_h
+            check_list(run, uk, cell, sym, lim_h, ph, dict(desc, history=list(hist)), "gethkls:repeat")
+            lo = lim_h - tol
+            if rr.random() < 0.5 and lo > 0 and lo + tol == lim_h and len(ph):
+                hist.append("makerings(%.6f,%.4g)" % (lo, tol))
+                uk.makerings(lo, tol)
+                run.count("cache_hit_makerings")
+                check_list(run, uk, cell, sym, lim_h, uk.peaks, dict(desc, history=list(hist)), "makerings:repeat")
+                check_rings(run, uk, lo, tol, dict(desc, history=list(hist)))
+                if rr.random() < 0.5:
+                    # ... and the list for the ring limit itself, asked right after the rings were made
+                    hist.append("gethkls(%.6f)" % lo)
+                    ph = uk.gethkls(lo)
+                    last = lo
+                    check_list(run, uk, cell, sym, lo, ph, dict(desc, history=list(hist)), "gethkls:repeat")
+        # Not judged: a caller that edits the list gethkls returned (it is the object's cached list, so a later
+        # gethkls/makerings at the same limit sees the edit).  The statement speaks about the list generated for a cell
+        # and limit, not about its immunity against the caller; observed and recorded in DESIGN.md only.
+    # the ring table indexer.assigntorings leaves in the unit cell object: makerings(max |g|, ds_tol)
+    if rr.random() < 0.35 and len(peaks):
+        ua = build_uc(unitcell, route, cell, sym)
+        sel = rr.choice(len(peaks), min(len(peaks), 40), replace=False)
+        hk = np.array([peaks[int(j)][1] for j in sel], float)
+        B = np.linalg.cholesky(np.asarray(rmetric(cell), float)).T       # harness B, B^T B = G*
+        gv = (hk @ B.T) @ np.asarray(random_rot(rr)).T
+        gv = gv * (1 + rr.uniform(-1e-4, 1e-4, (len(gv), 1)))             # observed peaks are a little off their ring
+        old_level = indexing.loglevel      # assigntorings prints one line per ring at its default level
+        indexing.loglevel = 3
+        try:
+            ind = indexing.indexer(unitcell=ua, gv=gv, ds_tol=tol, wavelength=0.5 / dsmax)
+            ind.assigntorings()
+        finally:
+            indexing.loglevel = old_level
+        lim_a = float(np.sqrt((gv * gv).sum(axis=1)).max())
+        run.count("assigntorings_tables")
+        ad = dict(desc, route="indexer.assigntorings", limit=lim_a)
+        check_list(run, ua, cell, sym, lim_a + tol, ua.peaks, ad, "assigntorings")
+        check_rings(run, ua, lim_a, tol, ad)
     # rings
     lim = dsmax * float(r.uniform(0.5, 1.0))
-    uc2 = unitcell.unitcell(cell, sym)
+    uc2 = build_uc(unitcell, route, cell, sym)
     if len(peaks) == 0 or lim + tol <= min(p[0] for p in peaks) * (1 + 1e-9):
         run.count("rings_skipped_no_reflection_below_limit")   # makerings needs >= 1 reflection
         return
@@ -276,6 +371,7 @@ def check(run, replay=None):
     run.assumptions += [
         "completeness box |h|<=floor(dsmax*a)+1 is sufficient because |h|=|a.g|<=|a||g|",
         "reflections within 1e-9 relative of the limit may be listed or not",
+        "the gv -> ring assignment (indexer.ra) made by assigntorings is not part of the property; only the ring table is judged",
         "ring rule accepted: contiguous ascending groups, neighbour gap < tol inside a ring, a ring "
         "starts >= tol after the start of the previous ring",
     ]
@@ -289,3 +385,8 @@ def check(run, replay=None):
     run.require_counter("reflections_checked", 1000)
     run.require_counter("rings_checked", 100)
     run.require_counter("history_steps", 50)
+    run.require_counter("cache_hit_calls", 50)
+    run.require_counter("cache_hit_makerings", 10)
+    run.require_counter("assigntorings_tables", 20)
+    for rt in set(ROUTES):
+        run.require_counter("built_by:" + rt, 5)
